@@ -53,13 +53,13 @@ class Gen:
                                 (1, {"v": "list", "n": 3})])
         if role in ("content", "replace"):
             return ch.weighted([
-                (5, {"v": "str", "s": ch.pick(["v", "a<b", "x&y", "q\"r", "<i>t</i>"])}),
+                (5, {"v": "str", "s": ch.pick(["v", "a<b/>c", "x&y", "q\"r", "<i>t</i>"])}),
                 (1, {"v": "int", "i": 7}), (1, {"v": "none"}),
                 (1, {"v": "default"}), (1, {"v": "html", "s": "<u>h</u>"}),
                 (1, {"v": "true"})])
         if role == "attr":
             return ch.weighted([
-                (5, {"v": "str", "s": ch.pick(["v", "a<b", "x&y", "q\"r"])}),
+                (5, {"v": "str", "s": ch.pick(["v", "a<b/>c", "x&y", "q\"r"])}),
                 (1, {"v": "int", "i": 7}), (2, {"v": "none"}),
                 (1, {"v": "default"}), (1, {"v": "false"})])
         if role == "omit":
@@ -71,11 +71,11 @@ class Gen:
         if role == "sinterp":
             return {"v": "str", "s": ch.pick(["<i>s</i>", "s&amp;", "w"])}
         if role == "fallback":
-            return ch.weighted([(4, {"v": "str", "s": ch.pick(["fb", "f<b"])}),
+            return ch.weighted([(4, {"v": "str", "s": ch.pick(["fb", "f<b/>g"])}),
                                 (1, {"v": "none"}), (1, {"v": "int", "i": 3})])
         # define / interp / string part
         return ch.weighted([
-            (5, {"v": "str", "s": ch.pick(["v", "a<b", "x&y", "w"])}),
+            (5, {"v": "str", "s": ch.pick(["v", "a<b/>c", "x&y", "w"])}),
             (1, {"v": "int", "i": 7}), (1, {"v": "none"}),
             (1, {"v": "html", "s": "<u>h</u>"})])
 
